@@ -56,10 +56,10 @@ def check(ctx, replay=None):
     picked, seen = [], {}
     for c in cases:
         k = interesting(c)
-        if seen.get(k, 0) < (60 if th else 12):
+        if seen.get(k, 0) < (260 if th else 12):
             seen[k] = seen.get(k, 0) + 1
             picked.append(c)
-    picked = picked[:(3000 if th else 400)]
+    picked = picked[:(8000 if th else 400)]
     created = []
     work = os.path.join(d, "work")
     os.makedirs(work, exist_ok=True)
